@@ -34,7 +34,17 @@ impl Resolver<'_> {
                 let decl = self.root_mod.module.get(fq_ident).unwrap();
                 if let DeclKind::Import(target) = &decl.kind {
                     let target = target.clone();
-                    return self.resolve_ident(&target);
+                    // imports that lead back to themselves (`import a = a`) would be followed forever
+                    const MAX_IMPORT_DEPTH: usize = 32;
+                    if self.import_depth >= MAX_IMPORT_DEPTH {
+                        return Err(Error::new_simple(format!(
+                            "import `{ident}` leads back to itself"
+                        )));
+                    }
+                    self.import_depth += 1;
+                    let followed = self.resolve_ident(&target);
+                    self.import_depth = self.import_depth.saturating_sub(1);
+                    return followed;
                 }
             }
             Err(e) => {
